@@ -30,7 +30,11 @@ def read_fasta(path):
 # ------------------------------------------------------------------ string generators
 NUC = "ACGTacgtUu"
 OTHER_ASCII = "NnRYKMSWBDHVX-*. 0123456789"
-UNI = ["é", "α", "中", "\U0001F9EC", "А", "Å", "☃", "퟿", "Ā"]
+# non-ASCII characters, including ones whose code point modulo 256 is a nucleotide letter (U+0141 -> 'A', U+0143 -> 'C',
+# U+0147 -> 'G', U+0154 -> 'T', U+0155 -> 'U', U+0161 -> 'a', ...): a binding that narrowed characters instead of reading
+# UTF-8 bytes would take them for bases
+UNI = ["é", "α", "中", "\U0001F9EC", "А", "Å", "☃", "퟿", "Ā",
+       "\u0141", "\u0143", "\u0147", "\u0154", "\u0155", "\u0161", "\u0163", "\u0167", "\u0174", "\u0175", "\U00010141", "\u0241"]
 
 
 def gen_string(rng, n):
